@@ -5,10 +5,15 @@ from .. import vlib
 TRUSTED = [
     "Lean 4.33 kernel; axioms per theorem listed under coverage.axioms (subset of propext, Classical.choice, Quot.sound)",
     "translate/serialops.py (clang++-14 record layouts + token-level scan of serializeOp / operator== bodies -> Gen/SerialClasses.lean)",
-    "harness/serial.cpp, serial_codec.hpp, serial_objects.hpp + lib/vlib.py differ; model driver (compiled Lean)",
+    "harness/serial.cpp, serial_codec.hpp, serial_objects.hpp, serial_probes.hpp + lib/vlib.py differ; model driver (compiled Lean)",
     "modelled, not verified: the C++ has no bounds checks on UNPACK (short buffer / bool byte other than 0,1 is UB there, an error in the model); "
-    "memcpy packing of padded PODs; HAVE_DUNE branches; shared_ptr identity map (object level only: property mode); "
+    "memcpy packing of padded PODs; HAVE_DUNE branches; "
+    "pointer layer: the addresses make_shared returns are a parameter (assumed injective = distinct live objects), a buffer whose pointee "
+    "contains its own address (PACK cannot produce it), variant/set of pointer-holding types and two static types at one address are outside the model; "
+    "that the translator's pointer-shape code of a member type (ptr_shape) is right (pointer_members_modelled is a kernel check over it); "
+    "recursive classes (UDQASTNode) are instances of the descriptor type only by unrolling; "
     "that operator== and the public queries depend only on the listed members",
+    "the probes for slave_mode / m_restart_network_pressures are armed exactly when the member is not on knownUnserialized (empty now)",
 ]
 
 
@@ -17,13 +22,24 @@ def _hdr_hash():
     serializeOp): its cache key must cover the repo headers, not only the library archive."""
     from translate import serialops
     h = hashlib.sha256()
-    for fn in ("serial_codec.hpp", "serial_objects.hpp"):
+    for fn in ("serial_codec.hpp", "serial_objects.hpp", "serial_probes.hpp"):
         h.update(open(os.path.join(vlib.VERIF, "harness", fn), "rb").read())
     for p in serialops._sources(vlib.REPO):
         if p.endswith(".hpp"):
             h.update(p.encode())
             h.update(open(p, "rb").read())
     return h.hexdigest()[:16]
+
+
+def _probe_env():
+    """The two reproduced members on `knownUnserialized` (Props/C11.lean) have probes in property mode.  While an
+    entry is on that list the loss is the documented state of the unchanged tree and the probe only counts it;
+    once the member is serialized `exceptions_tight` forces the entry off the list and the probe is armed."""
+    txt = open(os.path.join(vlib.LEAN, "OpmVerif", "Props", "C11.lean")).read()
+    env = dict(os.environ)
+    env["C11_ARM_SLAVE_MODE"] = "0" if '("Opm::ScheduleStatic", "slave_mode"' in txt else "1"
+    env["C11_ARM_NETPRESS"] = "0" if '("Opm::EclipseState", "m_restart_network_pressures"' in txt else "1"
+    return env
 
 
 def run(ctx):
@@ -45,7 +61,7 @@ def run(ctx):
         ctx.stage_correspondence(exe, ["corr", ctx.seed, ctx.tier])
     # the property's own statement on the implementation: always run; it is also the search
     # for a concrete failing input when a proof, the table check or the correspondence broke
-    ctx.stage_property_mode(exe, ["prop", ctx.seed, ctx.tier])
+    ctx.stage_property_mode(exe, ["prop", ctx.seed, ctx.tier], env=_probe_env())
     return ctx.finish(trusted_base=TRUSTED)
 
 
